@@ -217,24 +217,26 @@ def invalid_declarations():
             continue
         box = {}
 
-        def mk(nm=nm):
-            es = EquationSolver()
-            box['es'] = es
-            es.ParseString('%s = 1.0\nx = 2\nMaxTime = 1' % nm)
-            es.SolveEquation()
-        expect('variable-name:' + nm, mk, lambda: box['es'])
+        for red in (True, False):
+            def mk(nm=nm, red=red):
+                es = EquationSolver(run_equation_reduction=red)
+                box['es'] = es
+                es.ParseString('%s = 1.0\nx = 2\nMaxTime = 1' % nm)
+                es.SolveEquation()
+            expect('variable-name:' + nm + ('' if red else ':reduction-off'), mk, lambda: box['es'])
     bad_tokens = sorted((set(keyword.kwlist) | set(dir(builtins)) | {'self', 'None'}) - {'float', 'max', 'min', 'sum', 'pow', 'abs', 'round'})
     for tok in bad_tokens:
         if not tok.isidentifier():
             continue
         box = {}
 
-        def mk(tok=tok):
-            es = EquationSolver()
-            box['es'] = es
-            es.ParseString('x = 2 + %s\nMaxTime = 1' % tok)
-            es.SolveEquation()
-        expect('token:' + tok, mk, lambda: box['es'])
+        for red in (True, False):
+            def mk(tok=tok, red=red):
+                es = EquationSolver(run_equation_reduction=red)
+                box['es'] = es
+                es.ParseString('x = 2 + %s\nMaxTime = 1' % tok)
+                es.SolveEquation()
+            expect('token:' + tok + ('' if red else ':reduction-off'), mk, lambda: box['es'])
 
     # model-level declarations: every scenario is a sequence of public-API calls with a tick between consecutive calls, so that it can be
     # replayed with another model being started / built / solved at any point of its construction (the library documents coexisting models)
@@ -392,7 +394,7 @@ def run(tier, seed):
     chk.bounds = {'non-convergence / evaluation errors': '%d cases: blocks %r x iteration cap; 2 periods; start values and exogenous symbolic in [-100,100]' % (len(ncs), sorted(BLOCKS)),
                   'contraction => success': '%d cases x = A*x + B, A in {0.8,-0.8,0.5,...}, B and x(0) symbolic in the stated box (quick: A in {-0.8, 0.5, -0.5, 0.25} with boxes +-1000/+-100; A = 0.8 needs ~130 damped sweeps and is explored in the thorough tier only), DEFAULT cap 400, tolerance >= %g, one variable'
                   % (len(ccs), min(c[1] for c in ccs)),
-                  'invalid declarations': 'every keyword / builtin / math name / k / self / None as variable name and as token; duplicate country / sector; "__" in local '
+                  'invalid declarations': 'every keyword / builtin / math name / k / self / None as variable name and as token, with equation reduction on and off; duplicate country / sector; "__" in local '
                   'name and sector code; market without / with ambiguous suppliers (goods and labour); cross-currency flow and cross-currency supplier without external sector; each model-level '
                   'scenario also with another model started / half built / built-and-solved after every one of its construction calls'}
     chk.assumptions = ['sweep count is read from the public step trace (TraceStep)', 'TimeSeriesHolder.GenerateCSVtext stubbed to "" in E2 runs']
